@@ -241,6 +241,7 @@ def rule_5(ctx):
 TEXT_CONSTANTS = {'A1': 1.0, 'A2': True, 'A3': 0.0, 'A4': False, 'A5': 'abc', 'A6': 12.5, 'A7': 'He said "hi"', 'A8': '  two  words ', 'A9': '\u00c4bC',
                   'A10': 7, 'A11': 1, 'A12': 0}
 TEXT_FORMS = ['=LEN({c})', '={c}&"|"', '=UPPER({c})', '=LEFT({c},2)', '=EXACT({c},"True")', '=CONCATENATE({c},"x",{c})', '=RIGHT({c},1)&MID({c},2,1)']
+ODD_SUBJECTS = ['a\U0001F600b', '\U0001F600', 'x\U00020000y\U0001D11E', 'false', 'FALSE', 'False', 'true', 'TRUE', '0', 'none', 'null', ' ', 'nan']
 TEXT_IDENTITIES = {
     'I1': ('=EXACT(LEFT(A7,3)&RIGHT(A7,LEN(A7)-3),A7)', True), 'I2': ('=EXACT(MID(A7,1,4),LEFT(A7,4))', True),
     'I3': ('=LEN(A5&A7)=LEN(A5)+LEN(A7)', True), 'I4': ('=EXACT(REPLACE(A7,4,2,"XY"),LEFT(A7,3)&"XY"&MID(A7,6,LEN(A7)))', True),
@@ -290,6 +291,28 @@ def rule_6(ctx):
             got = ('error', W.error_code(ctx, got[1]))
         ctx.expect(S.same(got, _as_value(w)), anchor, f'text identity: {f}',
                    f'{f} (A5 = "abc", A7 = He said "hi", A8 = "  two  words ", A9 = "\u00c4bC") evaluates to {got!r}, expected {w!r}')
+    # subjects a table of ordinary words does not hold: characters outside the basic plane, texts that spell a boolean or nothing
+    oc = {}
+    owant = {}
+    for i, t in enumerate(ODD_SUBJECTS, start=1):
+        n_ = len(t)
+        oc.update({f'A{i}': t, f'B{i}': f'=LEN(A{i})', f'C{i}': f'=LEFT(A{i},1)&RIGHT(A{i},LEN(A{i})-1)', f'D{i}': f'=MID(A{i},1,3)', f'E{i}': f'=MID(A{i},2,2)',
+                   f'F{i}': f'=LEFT(A{i},LEN(A{i})-1)', f'G{i}': f'=EXACT(MID(A{i},1,2),LEFT(A{i},2))', f'H{i}': f'=LEN(A{i}&A{i})', f'I{i}': f'=UPPER(A{i})&LOWER(A{i})',
+                   f'J{i}': f'=RIGHT(A{i},2)', f'K{i}': f'=LEN(MID(A{i},1,{n_}))'})
+        if n_ == 1:
+            oc.pop(f'C{i}')         # RIGHT(s, 0) is the known finding F32
+        else:
+            owant[f'C{i}'] = t
+        owant.update({f'B{i}': n_, f'D{i}': t[:3], f'E{i}': t[1:3], f'F{i}': t[:-1], f'G{i}': True, f'H{i}': 2 * n_,
+                      f'I{i}': t.upper() + t.lower(), f'J{i}': t[-2:], f'K{i}': n_})
+    wbo = W.Workbook(ctx, oc)
+    for a, w in owant.items():
+        got = wbo.value('Sheet1!' + a)
+        if isinstance(got, tuple) and got and got[0] == 'error-class':
+            got = ('error', W.error_code(ctx, got[1]))
+        subj = oc['A' + a[1:]]
+        ctx.expect(S.same(got, _as_value(w)) or (w == '' and got == ('Text', '')), anchor, f'odd subject {subj!r}: {oc[a]}',
+                   f'{oc[a]} with A{a[1:]} = {subj!r} evaluates to {got!r}, expected {w!r}: the functions count, cut and join the characters of the text, whatever they spell')
     # text literals spelt like the workbook's defined names are texts; the names themselves are the cells they are bound to
     sheets = {'Data': {'A1': 'Gross', 'A2': 0.25, 'B1': '=LEN("total")', 'B2': '=UPPER("total")', 'B3': '="total"&"|"', 'B4': '=LEFT("total",2)',
                        'B5': '=FIND("t","total",1)', 'B6': '=LEN("total"&"xyz")', 'B7': '=total&":"&"total"', 'B8': '=EXACT("rate","RATE")',
@@ -313,7 +336,7 @@ def rule_6(ctx):
         shown = chain[a] if len(chain[a]) < 60 else chain[a][:40] + f'... ({count} operands)'
         ctx.expect(S.same(got, _as_value(w)), anchor, f'& chain of {count} operands: {shown}',
                    f'{shown} evaluates to {str(got)[:80]!r}, expected {str(w)[:40]!r}...: & joins its two operands, chains of any length included')
-    ctx.floor(104, 'text cells')
+    ctx.floor(230, 'text cells')
 
 
 RULES = [
